@@ -20,6 +20,16 @@ from contracts.sem import sem_equal
 
 PROPERTY = "C07"
 LEVEL = "proof"
+MANIFEST = dict(
+    text=("Deductive proof of the contract of move() for Point (C18), Line, Plane, Segment and HalfLine over all positions and all vectors: after move(v) EVERY attribute of the receiver, cached carrier line included, "
+          "equals that of the object freshly constructed at the translated position; the returned object is a different object, attribute-wise equal, and shares no mutable state with the receiver or with v; v is unchanged; "
+          "move(v) then move(-v) restores every attribute; a non-Vector argument raises and leaves the receiver unchanged (all seven types). Since the re-established representation invariant is the precondition of every query contract, "
+          "any sequence of moves leaves every query answering as on a fresh object."),
+    note=("ConvexPolygon.move and ConvexPolyhedron.move (rebuild sorted vertex tuples / hash sets) are not proved in this revision; their non-Vector rejection is checked. A1, A5."),
+    design_ref="DESIGN.md section 9 (C07)",
+)
+EXPLANATION = "move contracts proved attribute-wise against the fresh construction; history claims follow by induction from the re-established invariant"
+BOUNDED_ONLY = ["Geometry3D.geometry.polygon:ConvexPolygon.move", "Geometry3D.geometry.polyhedron:ConvexPolyhedron.move"]
 ASSUMES = ["A1", "A2", "A5", "A6"]
 
 
